@@ -348,6 +348,67 @@ func c20resp(c *run.Ctx) {
 	}
 	c.Sample(map[string]interface{}{"errors": len(names), "payloads": c20Payloads[:6]})
 	c20Custom(c)
+	c20FaultLeak(c)
+}
+
+// c20FaultLeak: the text of a failing storage call is internal detail. Every token-issuing / revoking flow of the C18 catalogue
+// (code, refresh, both replay handlings, device, PAR, revocation, ...) is run with a generic storage error injected at each
+// storage call in turn, debug exposure off; no HTTP response produced during the request may contain the error's text.
+func c20FaultLeak(c *run.Ctx) {
+	if !c.Mine(9) && c.NShards > 9 {
+		return
+	}
+	flows := c18Flows()
+	for _, fl := range flows {
+		for _, db := range []bool{false, true} {
+			mk := func() (*c18State, bool) {
+				w := world.New(world.Opts{Mode: world.Mode{DB: db, ContractDevice: true}})
+				st := &c18State{w: w, client: "conf-a"}
+				st.s = sim.New(w, c, "none")
+				st.by = st.s.Password("conf-b", []string{"offline", "fosite"})
+				ok := fl.prep(st)
+				return st, ok
+			}
+			st0, ok := mk()
+			if !ok {
+				continue
+			}
+			var recorded []world.Call
+			st0.w.Store.Tap = func(cl world.Call) { recorded = append(recorded, cl) }
+			fl.fire(st0)
+			st0.w.Store.Tap = nil
+			for k := range recorded {
+				st, ok := mk()
+				if !ok {
+					break
+				}
+				n := 0
+				st.w.Store.Pre = func(cl *world.Call) error {
+					i := n
+					n++
+					if i == k {
+						return faultErr("generic")
+					}
+					return nil
+				}
+				var leaked []string
+				world.RespTap = func(status int, h http.Header, body string) {
+					if strings.Contains(body, "STORAGE-CANARY") || strings.Contains(fmt.Sprint(h), "STORAGE-CANARY") {
+						leaked = append(leaked, fmt.Sprintf("status %d location %q body %s", status, h.Get("Location"), body))
+					}
+				}
+				fl.fire(st)
+				world.RespTap = nil
+				st.w.Store.Pre = nil
+				c.Case(fmt.Sprintf("storage-fault-text flow=%s db=%v call=%s leaked=%v", fl.name, db, recorded[k].Method, len(leaked) > 0))
+				c.Count("c20_fault_responses_scanned", 1)
+				if len(leaked) > 0 {
+					c.Violate(run.Violation{Kind: "debug-leaked", Key: fmt.Sprintf("debug-leaked storage error text flow=%s call=%s", fl.name, recorded[k].Method),
+						Detail: "debug exposure is off, yet the response carries the text of the failed storage call: " + leaked[0]})
+				}
+			}
+		}
+	}
 }
 
 // c20PageMode is an integrator-supplied response mode written the way the ResponseModeHandler contract describes: it writes
@@ -551,6 +612,14 @@ func c20taint(c *run.Ctx) {
 		s.ClientCredentials("conf-b", []string{"fosite"}, nil)
 		s.DeviceGrant("conf-a", []string{"offline", "openid"})
 		s.DeviceGrant("pub-c", []string{"offline"})
+		// device authorization and device-code exchange with credentials carried in the body
+		if dv := w.Device(url.Values{"client_id": {"post-e"}, "scope": {"offline fosite"}}, world.Post("post-e", "post-client-secret-e")); dv.Err == nil {
+			_ = w.DeviceDecide(dv.S("user_code"), true, "user-dev", nil, false)
+			w.Token(url.Values{"grant_type": {"urn:ietf:params:oauth:grant-type:device_code"}, "device_code": {dv.S("device_code")}}, world.Post("post-e", "post-client-secret-e"))
+		}
+		caDev := clientAssertionFor("pkj-f", keys.ClientRSA[0], "k0")
+		secrets[caDev] = "client_assertion"
+		w.Device(url.Values{"client_id": {"pkj-f"}, "scope": {"fosite"}}, world.Auth{Mode: "id_only", ID: "pkj-f", Assertion: caDev})
 		ca := clientAssertionFor("pkj-f", keys.ClientRSA[0], "k0")
 		secrets[ca] = "client_assertion"
 		w.Token(url.Values{"grant_type": {"client_credentials"}, "scope": {"fosite"}}, world.Auth{Mode: "none", Assertion: ca})
